@@ -865,20 +865,23 @@ def translate_disambig(repo: Path):
             tests.append(_src(n.body[1].test))
     if len(tests) != 1:
         raise T1Unrecognised(file, fn[0].lineno, "expected one unique-key search loop")
+    # the condition is a conjunction of recognised clauses: "no default value", "no default factory" (dataclasses keep the
+    # factory apart from `default`), "takes part in __init__"
     base = "cl_fields[orig_name].default in (NOTHING, MISSING)"
-    if tests[0] == base:
-        skip = False
-    elif tests[0] == base + " and cl_fields[orig_name].init":
-        skip = True
-    else:
+    fac = "getattr(cl_fields[orig_name], 'default_factory', MISSING) is MISSING"
+    ini = "cl_fields[orig_name].init"
+    conj = [c.strip() for c in tests[0].split(" and ")]
+    if base not in conj or any(c not in (base, fac, ini) for c in conj) or len(set(conj)) != len(conj):
         raise T1Unrecognised(file, fn[0].lineno, f"unique-key condition `{tests[0]}`")
+    skip = ini in conj
+    factory_default = fac in conj
     src = _src(fn[0])
     for needle in ("cls_and_attrs.sort(key=lambda c_a: len(c_a[1]), reverse=True)",
                    "c_and_a[0] is not cl and c_and_a[0] not in uniq_attrs_dict.values()",
                    "uniq = cl_reqs - other_reqs"):
         if needle not in src:
             raise T1Unrecognised(file, fn[0].lineno, f"missing `{needle}`")
-    return {"skip_noninit": skip}
+    return {"skip_noninit": skip, "factory_is_default": factory_default}
 
 
 def translate_threads(repo: Path):
@@ -903,8 +906,9 @@ def translate_threads(repo: Path):
     sites = 0
     for f in ("src/cattrs/gen/__init__.py", "src/cattrs/gen/typeddicts.py", "src/cattrs/cols.py"):
         src = (repo / f).read_text()
-        sites += src.count("working_set.add(cl)")
-        if src.count("working_set.add(cl)") != src.count("working_set.remove(cl)"):
+        adds, removes = re.findall(r"working_set\.add\((\w+)\)", src), re.findall(r"working_set\.remove\((\w+)\)", src)
+        sites += len(adds)
+        if sorted(adds) != sorted(removes):
             raise T1Unrecognised(f, 0, "working_set.add / remove are not paired")
     # ... and EVERY hook generator that can be re-entered through a reference cycle has the guard (a generator without it runs until
     # the interpreter's own RecursionError, near which the dispatcher's predicates fail and wrong hooks are chosen and cached: F36)
@@ -915,7 +919,13 @@ def translate_threads(repo: Path):
         if len(fns) != 1:
             raise T1Unrecognised(f, 0, f"generator {name} not found")
         body = _src(fns[0])
-        if not ("working_set.add(cl)" in body and "working_set.remove(cl)" in body and "raise RecursionError()" in body and "finally:" in body):
+        # the guard, on one and the same name: `if X in working_set: raise RecursionError()`, `working_set.add(X)`, and `working_set.remove(X)` in a finally
+        keys = set(re.findall(r"working_set\.add\((\w+)\)", body))
+        ok = len(keys) == 1 and "finally:" in body
+        if ok:
+            k = next(iter(keys))
+            ok = (f"working_set.remove({k})" in body and re.search(rf"if {k} in working_set:\s*\n\s*raise RecursionError\(\)", body) is not None)
+        if not ok:
             unguarded.append(f"{f}:{name}")
     return {"thread_local": tl, "guarded_generators": sites, "all_generators_guarded": not unguarded, "unguarded_generators": unguarded}
 
@@ -939,7 +949,9 @@ def emit_unions(u) -> str:
 
 def emit_disambig(d) -> str:
     return ("(* GENERATED by harness/t1_translate.py from src/cattrs/disambiguators.py -- do not edit *)\n"
-            f"Definition src_dis_skip_noninit : bool := {_coq_bool(d['skip_noninit'])}.\n")
+            f"Definition src_dis_skip_noninit : bool := {_coq_bool(d['skip_noninit'])}.\n"
+            "(* does an attribute whose default is a FACTORY (dataclasses: default_factory) count as having a default? *)\n"
+            f"Definition src_dis_factory_is_default : bool := {_coq_bool(d['factory_is_default'])}.\n")
 
 
 # ------------------------------------------------------- hook tables (CONV model)
